@@ -38,6 +38,20 @@ def narrowing(ctx, prog):
             for bi, bj, s in g.stmts():
                 if s["s"] == "assign" and s["lhs"]["l"] == 0 and s["rv"]["r"] == "agg" and s["rv"]["kind"].get("variant") == "Ok":
                     okv = canon(strip(gs.operand(s["rv"]["ops"][0]))) == canon(a1)
+            if not okv:
+                # `value.try_into_mut_short(&mut dest).map(|()| dest)`: the Ok payload is produced by a closure that returns its one
+                # capture, and that capture is the destination
+                for bi, bt in g.calls():
+                    if bt["dest"]["l"] == 0 and callee_of(bt).endswith("Result::<T, E>::map") and len(bt["args"]) == 2:
+                        recv = strip(gs.operand(bt["args"][0]))
+                        cl = strip(gs.operand(bt["args"][1]))
+                        if recv[0] == "call" and recv[1].endswith("::try_into_mut_short") and cl[0] == "agg" and cl[1].startswith("Closure:") and len(cl[2]) == 1:
+                            c = prog.get(cl[1][len("Closure:"):])
+                            cap = strip(cl[2][0])
+                            if c is not None and not list(c.calls()):
+                                ctx.visit(c)
+                                body = canon(strip(Sym(c).local(0)))
+                                okv = re.match(r"^param:\w*1\.0$", body) is not None and canon(cap) == canon(a1)
             ok = ok and okv
     ctx.ob(R, "TryFrom<long> for short = try_into_mut_short into a fresh destination, `?`, Ok(dest)", ok, why)
 
